@@ -391,6 +391,14 @@ def progOk (P P' : Prog) : Bool :=
     | _, _ => false)
   && decide (P.impls = P'.impls)
   && P.impls.all (fun i => globalOk P P' i.2.2.2)
+  && globalOk P P' "main"
+
+/-- `DirectFlow`: the program's lifting (as the model of `lift.rs` computes it) is accepted by the
+    structural check above — every closure has its environment struct and apply function with all
+    the variables it uses, and every call that was rewritten into an apply call goes through a
+    variable whose closure type the check itself can establish (let-bound, aliased, captured,
+    projected from a tuple, read from a struct field, returned by a function). -/
+def DirectFlow (env : Env) (p : Prog) : Bool := progOk p (liftProg env p)
 
 /-- which function failed (for reports) -/
 def firstRejected (P P' : Prog) : Option String :=
@@ -399,6 +407,8 @@ def firstRejected (P P' : Prog) : Option String :=
     | some f0, some f' => !fnOk P P' f0 f'
     | _, _ => true) with
   | some f => some f.name
-  | none => if decide (P.impls = P'.impls) && P.impls.all (fun i => globalOk P P' i.2.2.2) then none else some "<impls>"
+  | none =>
+    if decide (P.impls = P'.impls) && P.impls.all (fun i => globalOk P P' i.2.2.2) && globalOk P P' "main" then none
+    else some "<impls>"
 
 end Goml.Lift
